@@ -29,7 +29,13 @@ class St(object):
     self.scale = params['res'] / 0.01
     self.dts = [d * self.scale for d in params['dts']]
     self.advs = [d * self.scale for d in params['advs']]
-    self.horizon = vloop.EPOCH + 0.2 * self.scale
+    self.horizon = vloop.EPOCH + params.get('horizon', 0.2) * self.scale
+    # the module-level queues (1 s low-resolution clock tick) are not under test here: cancel what they hold so that
+    # long clock advances do not have to step through thousands of their ticks
+    for gq in (tq.GLOBAL_TIMER_QUEUE, tq.LOW_RESOLUTION_TIMER_QUEUE):
+      for e in gq._queue:
+        e[2] = True
+        e[3] = None
     self.q = world.track_timer_queue(tq.TimerQueue(time_source=self.lp.now, resolution=self.res))
     vloop.run_ready()
     self.acts = []      # dicts: D, tick, t_sched, ev_sched, cancel, cancelled_at, runs
@@ -100,6 +106,8 @@ class St(object):
       modes += list(range(1, p['preempt_depth'] + 1))
     if len(self.acts) < p['max_actions']:
       for k in range(len(self.dts)):
+        if lp.now() + self.dts[k] > self.horizon - 2 * self.res:
+          continue          # its deadline would lie beyond the horizon the terminal oracle runs to
         for j in modes:
           ops.append(['S', k, j])
     for i, a in enumerate(self.acts):
@@ -219,6 +227,9 @@ CONFIGS = {
       'max_actions': 3, 'max_preempt': 2, 'preempt_depth': 3}, 6),
     ({'res': 1, 'dts': [-0.0125, 0.0025, 0.0125], 'advs': [0.005],
       'max_actions': 3, 'max_preempt': 1, 'preempt_depth': 2}, 5),
+    # deadlines minutes and hours ahead of the clock (the worker sleeps for a long time)
+    ({'res': 0.01, 'dts': [3.5025, 400.0025, 4000.0025], 'advs': [350.0, 100.0], 'horizon': 4500.0,
+      'max_actions': 3, 'max_preempt': 0, 'preempt_depth': 1}, 5),
     # several overdue deadlines (different past ticks) scheduled in the same instant, after earlier actions have run
     ({'res': 0.01, 'dts': [-0.0325, -0.0225, -0.0125, 0.0125], 'advs': [0.02],
       'max_actions': 4, 'max_preempt': 2, 'preempt_depth': 1}, 6),
